@@ -28,7 +28,7 @@ from engine_checks import *  # noqa
 
 PID = "C06"
 FP_SPEC = {"cloudsync/event.py": ["EventManager.__init__", "EventManager._validate_root", "EventManager.forget", "EventManager.busy",
-                                  "EventManager.do", "EventManager._do_walk_if_needed", "EventManager._do_first_init",
+                                  "EventManager.do", "EventManager._forget_walk", "EventManager._do_walk_if_needed", "EventManager._do_first_init",
                                   "EventManager._do_unsafe", "EventManager._save_current_cursor", "EventManager._process_event",
                                   "EventManager.queue"],
            "cloudsync/sync/state.py": ["SyncState.__init__", "SyncState.storage_get_data", "SyncState.storage_update_data",
@@ -88,6 +88,31 @@ class EmWorld:
         self.fresh = []
         self.errors = []
         self.names = 0
+        self.tr = []                 # write-order trace (tokens of the Lean layer `durable`), over all engines of this world
+        self.in_do = False
+        self.arm = None              # ("events" | "walk" | "storage", k): inject a failure inside the running do()
+        self.swrites = 0
+        world = self
+        orig_walk, orig_events = self.prov.walk_oid, self.prov.events
+
+        def walk_oid(*a, **kw):
+            if world.in_do:
+                if world.arm and world.arm[0] == "walk":
+                    world.arm = None
+                    raise CloudTemporaryError("injected: walk")
+                world.tr.append("wb")
+                world.walk_k = 0
+            return orig_walk(*a, **kw)
+
+        def events(*a, **kw):
+            if world.in_do and world.arm and world.arm[0] == "events":
+                world.arm = None
+                raise CloudTemporaryError("injected: event poll")
+            return orig_events(*a, **kw)
+        from cloudsync.exceptions import CloudTemporaryError
+        self.prov.walk_oid = walk_oid
+        self.prov.events = events
+        self.walk_k = 0
         label = "%s:%s:%s" % (self.prov.name, self.prov.connection_id, self.prov.namespace_id)
         if cfg == "n":
             self.ctag, self.wtag = "_cursor", None
@@ -123,6 +148,24 @@ class EmWorld:
             return
         EventManager._provider_guard.clear()
         self.storage = self.make_storage()
+        world0 = self
+        for meth in ("create", "update", "delete"):
+            def proxy(*a, _orig=getattr(self.storage, meth), _m=meth, **kw):
+                tag = a[0]
+                if world0.in_do and world0.arm and world0.arm[0] == "storage":
+                    if world0.swrites == world0.arm[1]:
+                        world0.arm = None
+                        raise RuntimeError("injected: storage write failed")
+                    world0.swrites += 1
+                r = _orig(*a, **kw)
+                if tag == world0.wtag:
+                    world0.tr.append("dm" if _m == "delete" else "mk")
+                elif tag == world0.ctag and _m != "delete":
+                    v = a[1]
+                    if isinstance(v, int) and not isinstance(v, bool):
+                        world0.tr.append("cu:%d" % v)
+                return r
+            setattr(self.storage, meth, proxy)
         self.state = SyncState((self.prov, self.other), self.storage, tag="entries")
         kw = {"n": {}, "p": {"root_path": self.ROOT}, "b": {"root_path": self.ROOT, "root_oid": self.root_oid}}[self.cfg]
         self.fresh = []
@@ -143,9 +186,22 @@ class EmWorld:
                 raise Crash()
             world.effects += 1
 
+        orig_commit = self.state.storage_commit
+
+        def storage_commit():
+            had = len(world.state._dirtyset) > 0
+            r = orig_commit()
+            if had and not world.state._dirtyset:
+                world.tr.append("cm")
+            return r
+        self.state.storage_commit = storage_commit
+
         def process_event(event, from_walk=False):
             effect()
             world.fresh.append("w" if from_walk else str(event.new_cursor))
+            world.ctx = ("wr:%d" % world.walk_k) if from_walk else ("pe:%d" % event.new_cursor)
+            if from_walk:
+                world.walk_k += 1
             world.current_event = None if from_walk else event.new_cursor
             try:
                 r = orig_pe(event, from_walk=from_walk)
@@ -159,7 +215,11 @@ class EmWorld:
         def update(*a, **kw):
             if world.current_event is not None:
                 world.updates.append(str(world.current_event))
-            return orig_upd(*a, **kw)
+            r = orig_upd(*a, **kw)
+            if world.state._dirtyset and getattr(world, "ctx", None):
+                world.tr.append(world.ctx)          # this delivery left something to write back
+                world.ctx = None
+            return r
 
         def storage_update_data(tag, data):
             effect()
@@ -177,6 +237,8 @@ class EmWorld:
 
     def stop(self):
         from cloudsync.event import EventManager
+        if self.em is not None:
+            self.tr.append("rs")
         self.em = None
         self.state = None
         EventManager._provider_guard.clear()
@@ -190,16 +252,25 @@ class EmWorld:
         self.deliveries = 0
         if mode and mode[0] == "stop" and mode[1] == 0:
             em._Runnable__shutdown = True
+        fault = mode if mode and mode[0] == "fault" else None
+        if fault:
+            self.mode = mode = None
+            self.arm = (fault[1], fault[2])
+            self.swrites = 0
         self.clock.advance(0.01)
+        self.in_do = True
         try:
             em.do()
         except Crash:
             pass
         except Exception as e:  # noqa
-            if type(e).__name__ != "_BackoffError":
+            self.tr.append("ft")
+            if type(e).__name__ != "_BackoffError" and not fault:
                 self.errors.append(repr(e)[:200])
         finally:
             self.mode = None
+            self.in_do = False
+            self.arm = None
         if mode:
             self.stop()
 
@@ -265,6 +336,8 @@ class EmWorld:
             self.do(("stop", int(t[1])))
         elif op == "docrash":
             self.do(("crash", int(t[1])))
+        elif op == "dofault":
+            self.do(("fault", t[1], int(t[2]) if len(t) > 2 else 0))
         elif op == "busy":
             if self.em is not None:
                 self.em.busy  # noqa
@@ -273,9 +346,11 @@ class EmWorld:
                 self.state.forget()
                 self.em.forget()
                 self.fresh = []
+                self.tr.append("fg")
         elif op in ("corrupt", "delcursor", "delwalk"):
             if self.em is None:
                 self.ext(op)
+                self.tr.append("xw" if op == "delwalk" else "xc")
         elif op == "provcur":
             if self.em is None:
                 self.prov._cursor = int(t[1])
@@ -389,7 +464,7 @@ def run_em_sequence(cfg, storage_kind, ops, rng):
             w.apply(op)
             lines.append(op)
             obs.append(w.observe())
-        return lines, obs, list(w.updates) if w.em is not None else []
+        return lines, obs, list(w.tr)
     finally:
         w.close()
 
@@ -417,6 +492,44 @@ def em_enumerated(tier, seed):
     return out
 
 
+TRACES = []          # (cfg, storage, model lines, write-order trace) of every EventManager run of this process
+
+
+def durable_fault_sequences(tier, seed):
+    """intake steps with a walk, with events, with both - and a failure injected at every provider call (event poll, walk) and
+    at every storage write position of that step; the engine object survives a failure, a crash / stop does not"""
+    cuts = ["do", "dofault events", "dofault walk"] + ["dofault storage %d" % k for k in range(6)] + \
+           ["docrash %d" % k for k in range(6)] + ["dostop %d" % k for k in range(3)]
+    out = []
+    n = 0
+    for cfg in "pb":
+        for scen in EM_SCENARIOS:
+            for cut in cuts:
+                n += 1
+                if tier == "quick" and (n + seed) % 2:
+                    continue
+                ops = ["start", "setroot", "do", "USER", "USER", "do", "stop", "USER", "USER"] + scen + ["start", cut]
+                ops += (["start"] if cut.split()[0] in ("docrash", "dostop") else []) + ["do", "USER", "do", "stop", "start", "do", "do"]
+                out.append((cfg, ops))
+    return out
+
+
+def durable_check(seed, tier):
+    """(1a) every recorded write-order trace through the Lean monitor `durable` (order discipline + durable coverage)"""
+    rng = rng_for(seed, "c06durable")
+    for i, (cfg, ops) in enumerate(durable_fault_sequences(tier, seed)):
+        kind = "mock" if i % 2 else "sqlite"
+        lines, _obs, tr = run_em_sequence(cfg, kind, ops, rng)
+        TRACES.append((cfg, kind, lines, tr))
+    items = [t for t in TRACES if t[3]]
+    verdicts = run_driver("durable", [" ".join(t[3]) for t in items]) if items else []
+    rejects = [{"cfg": t[0], "storage": t[1], "operations": t[2], "write_order_trace": t[3], "monitor_verdict": v}
+               for t, v in zip(items, verdicts) if v != "ok"]
+    import collections
+    toks = collections.Counter(x.split(":")[0] for t in items for x in t[3])
+    return len(items), dict(toks), rejects
+
+
 def em_correspondence(seed, tier):
     rng = rng_for(seed, "c06em")
     nseq = 400 if tier == "quick" else 4000
@@ -427,9 +540,10 @@ def em_correspondence(seed, tier):
         todo.append((cfg, ops, "mock" if i % 3 else "sqlite"))
     for cfg, ops, kind in todo:
         starts.append((len(all_lines), cfg, kind))
-        lines, obs, _ = run_em_sequence(cfg, kind, ops, rng)
+        lines, obs, tr = run_em_sequence(cfg, kind, ops, rng)
         all_lines += lines
         all_obs += obs
+        TRACES.append((cfg, kind, lines, tr))
     model = run_driver("event", all_lines)
     dis = []
     for i, (o, m) in enumerate(zip(all_obs, model)):
@@ -1062,6 +1176,76 @@ def case_offline_rename(fl, storage, rng, side, obj, how, variant, fresh_pos, gr
         run.close()
 
 
+def case_fault_after_walk(fl, storage, rng, side, variant, cut, offline, fresh_pos):
+    """corner: the cursor of `side` is lost at the restart, offline changes exist that only the walk can find, and the FIRST intake
+    step of that side after the restart is cut short right after the walk - the provider's event poll raises a temporary /
+    disconnected error, or the final-stop flag is seen by the event loop - and the engine is stopped at that step boundary, before any
+    other manager step could write the state back.  After the second restart the offline changes must still reach the other side:
+    either the walk's findings are in storage or the walk is done again."""
+    run = RestartRun(fl, storage, rng)
+    from cloudsync.exceptions import CloudTemporaryError, CloudDisconnectedError       # (after import_repo() ran)
+    rec, w = run.rec, run.w
+    try:
+        rec.user(side, "create", "/keep", tag=rec.fresh())
+        rec.user(side, "mkdir", "/dir")
+        if not run.quiesce():
+            return [("hard", None, run.summary({"failure": "base did not go quiet"}), None)]
+        run.stop(True)
+        for (sd, kind, rel) in offline:
+            sd = side if sd == "S" else 1 - side
+            if kind == "mkdir":
+                rec.user(sd, "mkdir", rel)
+            else:
+                rec.user(sd, kind, rel, tag=rec.fresh())
+        run.restart(variant, fresh_pos)
+        em = w.cs.emgrs[side]
+        prov = w.provs[side]
+        state = {"walked": False, "fired": 0}
+        orig_sud = w.cs.state.storage_update_data
+
+        def sud(tag, data):
+            r = orig_sud(tag, data)
+            if tag == em._walk_tag:
+                state["walked"] = True
+                if cut == "stopflag":
+                    em._Runnable__shutdown = True
+                    state["fired"] += 1
+            return r
+        w.cs.state.storage_update_data = sud
+        orig_events = prov.events
+
+        def events():
+            if state["walked"] and cut in ("temporary", "disconnected") and not state["fired"]:
+                state["fired"] += 1
+                raise (CloudTemporaryError if cut == "temporary" else CloudDisconnectedError)("injected right after the walk")
+            return orig_events()
+        prov.events = events
+        try:
+            # intake steps of that side only, until its walk has happened and the cut fell (error path: first step resets, second walks)
+            for _ in range(4):
+                rec.engine("LR"[side])
+                if state["fired"]:
+                    break
+        finally:
+            prov.events = orig_events
+        run.stop(cut != "stopflag" and rng.random() < 0.5)
+        run.restart("intact", fresh_pos)
+        if not run.quiesce():
+            return [("hard", None, run.summary({"failure": "engine did not go quiet within the step cap after the second restart"}), None)]
+        tl, tr = w.tree(0), w.tree(1)
+        sm = run.summary({"family": "fault-after-walk", "cut": cut, "cut_fired": state["fired"], "walk_seen": state["walked"]})
+        return [("line", "c01 | %s | %s" % (enc_tree(tl, run.fold), enc_tree(tr, run.fold)), sm, (fl, storage, "fault-after-walk", side, variant, cut, tuple(offline), fresh_pos)),
+                ("line", "c02 | %s | %s | %s" % (" ".join(rec.ledger), enc_tree(tl), enc_tree(tr)), sm, None),
+                ("line", "c06a | %s | %s" % (enc_tree(tl), enc_tree(tr)), sm, None)]
+    finally:
+        run.close()
+
+
+FAW_OFFLINE = [[("S", "create", "/offline.txt")],
+               [("S", "create", "/dir/x"), ("S", "mkdir", "/newdir"), ("S", "write", "/keep")],
+               [("S", "create", "/offline.txt"), ("O", "create", "/other.txt")]]
+
+
 def case_special_contents(fl, storage, rng, variant, fresh_pos, midsync):
     """corner: an empty file and two files with equal bytes, created while the engine is down (or just before a mid-sync stop);
     contents are not version tags here, so only C01's relation (and no artefacts) is checked"""
@@ -1192,6 +1376,14 @@ def engine_cases(tier, seed, families=None, n=None):
             for storage in (("mock", "sqlite") if tier != "quick" else ("sqlite" if (j + k) % 2 else "mock",)):
                 for item in case_offline_rename(fl, storage, rng, sd, obj, how, v, f, graceful=(k % 3 != 0)):
                     yield item
+    faw = [(sd, v % sd, cut, off, f) for sd in (0, 1) for v in ("delcur%d", "corrupt%d", "expired%d")
+           for cut in ("temporary", "disconnected", "stopflag") for off in range(len(FAW_OFFLINE)) for f in (True, False)]
+    for j, fl in enumerate(flavours):
+        combos = faw if tier != "quick" else [faw[(seed * 11 + j * 13 + t * 23) % len(faw)] for t in range(6)]
+        for k, (sd, v, cut, off, f) in enumerate(combos):
+            for storage in (("mock", "sqlite") if tier != "quick" else ("sqlite" if (j + k) % 2 else "mock",)):
+                for item in case_fault_after_walk(fl, storage, rng, sd, v, cut, FAW_OFFLINE[off], f):
+                    yield item
     sp = [(v, f, m) for v in ("intact", "delcur0", "delcur1", "corrupt0", "corrupt1", "delwalk1") for f in (True, False) for m in (True, False)]
     for j, fl in enumerate(flavours):
         combos = sp if tier != "quick" else [sp[(seed * 7 + j * 5 + t * 11) % len(sp)] for t in range(3)]
@@ -1261,7 +1453,26 @@ KF_REJECTED = "need-walk-not-persisted/rejected-cursor"
 KF_MISSING = "need-walk-not-persisted/missing-cursor-stop-in-walk"
 KF_DEDUP = "walk-dedup-ignores-existence"
 KF_ROWID = "sqlite-rowid-reuse-after-trash-delete"
+KF_DIRTY = "dirty-left-after-failed-storage-write"
+KF_DIRTY_OPS = ["start", "setroot", "do", "USER", "USER", "do", "stop", "USER", "USER", "delcursor", "PROVLATEST", "start",
+                "dofault storage 3", "do", "stop"]
+
+
+def replay_dirty_left():
+    """EventManager over MockStorage: first run, two user operations, stop, two more, cursor row deleted, new provider object, new
+    engine; its first do() walks, and the 4th storage write of that do() (the row of the second walk finding) fails; the next do()
+    walks again (nothing "changed" for the entries already in memory), writes the walk marker while the entry whose write failed is
+    still only in the dirty set.  True = the Lean monitor refuses the recorded write order at the marker write."""
+    lines, _obs, tr = run_em_sequence("p", "mock", KF_DIRTY_OPS, random.Random(0))
+    v = run_driver("durable", [" ".join(tr)])[0] if tr else "ok"
+    return (v.startswith("reject") and v.endswith("order")), {"operations": lines, "write_order_trace": tr, "monitor_verdict": v}
+
+
 KF_TEXT = {
+    KF_DIRTY: "after a storage write fails inside an intake step (exception out of storage_commit), the entries that were not written stay in "
+              "the dirty set and nothing writes them back before the next persistent write: the following do() writes the walk marker "
+              "(or saves the cursor) with the dirty set non-empty, so a stop right then loses the finding while storage says walked / "
+              "cursor advanced (EventManager level, found by the write-order monitor; needs a failing storage backend)",
     KF_DEDUP: "the walk de-duplication (event.py:302-307) compares only hash and path with the known entry, not whether the entry is known "
               "as deleted: on a path-id side, an object deleted (and synced) and then re-created at the same path with the same content "
               "(or a folder) is ignored by the walk that follows a lost cursor and never reaches the other side",
@@ -1423,11 +1634,15 @@ def em_replay_witness():
 def replay_known(res):
     opens, fixed = load_known_findings(PID)
     wit = em_replay_witness()
-    for ident, fn in ((KF_REJECTED, replay_rejected), (KF_MISSING, replay_missing), (KF_DEDUP, replay_dedup), (KF_ROWID, replay_rowid)):
+    for ident, fn in ((KF_REJECTED, replay_rejected), (KF_MISSING, replay_missing), (KF_DEDUP, replay_dedup), (KF_ROWID, replay_rowid),
+                      (KF_DIRTY, None)):
         hits = []
-        for storage in ("mock", "sqlite") if ident != KF_ROWID else ("sqlite",):
-            hit, summ = fn(storage)
-            hits.append((hit, summ))
+        if ident == KF_DIRTY:
+            hits.append(replay_dirty_left())
+        else:
+            for storage in ("mock", "sqlite") if ident != KF_ROWID else ("sqlite",):
+                hit, summ = fn(storage)
+                hits.append((hit, summ))
         if ident not in wit:
             wit[ident] = {"agree": True, "lost": all(h for h, _ in hits)}
         shows = all(h for h, _ in hits) and wit[ident]["lost"]
@@ -1590,6 +1805,10 @@ def run(res, tier, seed, proof_broken, replay):
     wit = replay_known(res)
     # 3a. model correspondence
     lines, obs, model, dis = em_correspondence(seed, tier)
+    n_traces, tok_hist, d_rejects = durable_check(seed, tier)
+    opens_now, _f = load_known_findings(PID)
+    d_known = [r for r in d_rejects if KF_DIRTY in opens_now and any(x.startswith("dofault storage") for x in r["operations"])]
+    d_rejects = [r for r in d_rejects if r not in d_known]
     op_hist = collections.Counter(ln.split()[0] for ln in lines)
     shape = collections.Counter()
     for o in obs:
@@ -1634,6 +1853,8 @@ def run(res, tier, seed, proof_broken, replay):
         "renames_in_lost_window": sum(sm.get("renames_in_lost_window", 0) for sm, k in zip(e_sums, e_keys) if k),
         "case_only_renames_in_lost_window": sum(sm.get("case_only_renames_in_lost_window", 0) for sm, k in zip(e_sums, e_keys) if k),
         "witness_replays": {k: {"agree": v["agree"], "lost": v["lost"]} for k, v in wit.items()},
+        "write_order_traces_checked": n_traces, "write_order_token_histogram": tok_hist,
+        "write_order_known_instances": {KF_DIRTY: len(d_known)},
         "fingerprints": fingerprints(FP_SPEC),
     })
     res.assumptions += [
@@ -1650,6 +1871,11 @@ def run(res, tier, seed, proof_broken, replay):
     broken = list(proof_broken)
     for d in dis[:3]:
         broken.append("correspondence EventManager/model: %r" % (d,))
+    for r in d_rejects[:3]:
+        r = dict(r)
+        r.update({"property": PID, "kind": "write order of the real EventManager refused by the durable-coverage monitor "
+                                          "(marker / cursor written while findings are only in the dirty set)"})
+        res.violation(r)
     for v, sm in rejects[:3]:
         sm = dict(sm)
         sm.update({"monitor_verdict": v, "property": PID})
@@ -1662,7 +1888,7 @@ def run(res, tier, seed, proof_broken, replay):
         sm = dict(sm)
         sm["property"] = PID
         res.violation(sm)
-    if broken and not rejects and not hard:
+    if broken and not rejects and not hard and not d_rejects:
         hit = em_search(seed, tier)
         if hit:
             res.violation({"property": PID, "kind": "C06 statement fails on the real EventManager", "failing": hit, "broken": broken[:3]})
@@ -1681,4 +1907,7 @@ if __name__ == "__main__":
             for d in dis[:2]:
                 print(json.dumps(d, indent=1))
     else:
+        sys.path.insert(0, os.path.join(VERIF, "tools"))
+        import gen_intake_order
+        gen_intake_order.main(REPO, os.path.join(LEAN, "Csverif", "Gen", "IntakeOrder.lean"))      # before the audit builds Props/C06Sites
         standard_main(PID, run)
